@@ -402,6 +402,30 @@ End Completed.
 
 Definition is_dict (v : jv) : bool := match v with JDict _ => true | _ => false end.
 
+Section JvInd.
+  Variable P : jv -> Prop.
+  Hypothesis Hatom : forall v, is_dict v = false -> P v.
+  Hypothesis Hdict : forall d, Forall (fun kv => P (snd kv)) d -> P (JDict d).
+
+  Fixpoint jv_dict_ind (v : jv) : P v :=
+    match v with
+    | JDict d =>
+      Hdict d ((fix go (d : dict) : Forall (fun kv => P (snd kv)) d :=
+                  match d with
+                  | [] => Forall_nil _
+                  | (k, x) :: r => Forall_cons (k, x) (jv_dict_ind x) (go r)
+                  end) d)
+    | JInt z => Hatom (JInt z) eq_refl
+    | JFloat q => Hatom (JFloat q) eq_refl
+    | JNan => Hatom JNan eq_refl
+    | JInf b => Hatom (JInf b) eq_refl
+    | JStr s => Hatom (JStr s) eq_refl
+    | JBool b => Hatom (JBool b) eq_refl
+    | JNull => Hatom JNull eq_refl
+    | JList l => Hatom (JList l) eq_refl
+    end.
+End JvInd.
+
 Lemma upd_nil dv : upd dv (JDict []) = Ok dv.
 Proof. reflexivity. Qed.
 
@@ -411,22 +435,39 @@ Proof. destruct v; try discriminate; reflexivity. Qed.
 
 Lemma upd_cons_dict ad k x rest :
   upd (JDict ad) (JDict ((k, JDict x) :: rest))
-  = match upd (match lookup k ad with Some y => y | None => JDict [] end) (JDict x) with
+  = match upd (upd_base ad k) (JDict x) with
     | Ok nv => upd (JDict (set_key k nv ad)) (JDict rest)
     | Raise e => Raise e
     end.
 Proof. reflexivity. Qed.
 
-Definition set_all (ud dd : dict) : dict :=
-  fold_left (fun acc kv => set_key (fst kv) (conv_special (snd kv)) acc) ud dd.
+(* the Spec's [kept], on the items of a dictionary *)
+Definition kept_items (d : dict) : dict := map (fun kv => (fst kv, kept (snd kv))) d.
 
-Lemma upd_flat ud : forall dd, (forall k v, In (k, v) ud -> is_dict v = false) ->
-  upd (JDict dd) (JDict ud) = Ok (JDict (set_all ud dd)).
+Lemma kept_dict d : kept (JDict d) = JDict (kept_items d).
 Proof.
-  induction ud as [|[k v] rest IH]; intros dd H; [reflexivity|].
-  rewrite upd_cons_val by (apply (H k v); now left).
-  rewrite IH by (intros k' v' Hin; apply (H k' v'); now right). reflexivity.
+  cbn [kept]. f_equal. induction d as [|[k x] r IH]; [reflexivity|].
+  cbn [kept_items map fst snd]. now rewrite IH.
 Qed.
+
+Lemma kept_leaf v : is_dict v = false -> kept v = conv_special v.
+Proof. destruct v; try discriminate; reflexivity. Qed.
+
+Lemma py_keys_dict d : py_keys (JDict d) <-> NoDup (keys d) /\ Forall (fun kv => py_keys (snd kv)) d.
+Proof.
+  cbn [py_keys].
+  assert (E : (fix all (d : dict) : Prop := match d with [] => True | (_, x) :: r => py_keys x /\ all r end) d
+              <-> Forall (fun kv => py_keys (snd kv)) d).
+  { induction d as [|[k x] r IH]; [split; constructor|].
+    split.
+    - intros [H1 H2]. constructor; [exact H1 | now apply IH].
+    - intro H. inversion H; subst. split; [assumption | now apply IH]. }
+  now rewrite E.
+Qed.
+
+(* every user item stored in turn, each value as the Spec keeps it *)
+Definition set_all (ud dd : dict) : dict :=
+  fold_left (fun acc kv => set_key (fst kv) (kept (snd kv)) acc) ud dd.
 
 Lemma lookup_set_key k k' v d :
   lookup k (set_key k' v d) = if String.eqb k k' then Some v else lookup k d.
@@ -448,16 +489,92 @@ Proof.
 Qed.
 
 Lemma lookup_set_all ud : forall dd k, NoDup (keys ud) ->
-  lookup k (set_all ud dd) = match lookup k ud with Some v => Some (conv_special v) | None => lookup k dd end.
+  lookup k (set_all ud dd) = match lookup k ud with Some v => Some (kept v) | None => lookup k dd end.
 Proof.
   induction ud as [|[k0 v0] rest IH]; intros dd k ND; [reflexivity|].
   cbn in ND. inversion ND as [|? ? Hnot ND']; subst.
-  unfold set_all. cbn [fold_left fst snd]. fold (set_all rest (set_key k0 (conv_special v0) dd)).
+  unfold set_all. cbn [fold_left fst snd]. fold (set_all rest (set_key k0 (kept v0) dd)).
   rewrite IH by exact ND'. cbn [lookup].
   destruct (String.eqb k k0) eqn:E.
   - apply String.eqb_eq in E. subst k0. rewrite (lookup_none_not_in k rest Hnot).
     now rewrite lookup_set_key, String.eqb_refl.
   - destruct (lookup k rest); [reflexivity|]. now rewrite lookup_set_key, E.
+Qed.
+
+Lemma set_key_notin k v (d : dict) : ~ In k (keys d) -> set_key k v d = (d ++ [(k, v)])%list.
+Proof.
+  induction d as [|[k0 v0] r IH]; cbn; [reflexivity|]. intro H.
+  destruct (String.eqb k k0) eqn:E; [apply String.eqb_eq in E; subst; tauto|].
+  rewrite IH by tauto. reflexivity.
+Qed.
+
+(* stored into a dictionary that has none of the keys: appended in order *)
+Lemma set_all_fresh ud : forall acc, NoDup (keys ud) -> (forall k, In k (keys ud) -> ~ In k (keys acc)) ->
+  set_all ud acc = (acc ++ kept_items ud)%list.
+Proof.
+  induction ud as [|[k v] rest IH]; intros acc ND F; [cbn; now rewrite app_nil_r|].
+  cbn in ND. inversion ND as [|? ? Hnot ND']; subst.
+  unfold set_all. cbn [fold_left fst snd]. fold (set_all rest (set_key k (kept v) acc)).
+  rewrite set_key_notin by (apply F; now left).
+  rewrite IH; [cbn [kept_items map fst snd]; now rewrite <- app_assoc | exact ND' |].
+  intros k' Hin. unfold keys. rewrite map_app, in_app_iff. cbn [map fst In].
+  intros [H|[H|[]]]; [apply (F k'); [now right | exact H] | subst k'; exact (Hnot Hin)].
+Qed.
+
+(* no dictionary is stored under the key (no value, or a scalar / list / None) *)
+Definition no_dict_at (dd : dict) (k : string) : Prop :=
+  match lookup k dd with Some (JDict _) => False | _ => True end.
+
+Lemma upd_base_no_dict dd k : no_dict_at dd k -> upd_base dd k = JDict [].
+Proof. unfold no_dict_at, upd_base. destruct (lookup k dd) as [[]|]; tauto || reflexivity. Qed.
+
+Lemma no_dict_at_leaves dd : forallb (fun kv => negb (is_dict (snd kv))) dd = true -> forall k, no_dict_at dd k.
+Proof.
+  intros H k. unfold no_dict_at. induction dd as [|[k0 v0] r IH]; cbn; [exact I|].
+  cbn in H. apply andb_prop in H as [H1 H2].
+  destruct (String.eqb k k0); [destruct v0; try exact I; discriminate | exact (IH H2)].
+Qed.
+
+(* the statement proved by induction on the user's value: merged into an empty dictionary, a
+   dictionary comes out as the Spec keeps it *)
+Definition upd_keeps (v : jv) : Prop :=
+  py_keys v -> forall d, v = JDict d -> upd (JDict []) (JDict d) = Ok (kept (JDict d)).
+
+(* a user dictionary merged into defaults that hold no dictionary under the user's keys: every
+   user item is stored, dictionaries included (nothing raises, nothing is replaced by a default) *)
+Lemma upd_over_leaves ud : Forall (fun kv => upd_keeps (snd kv)) ud ->
+  forall dd, NoDup (keys ud) -> Forall (fun kv => py_keys (snd kv)) ud ->
+  (forall k, In k (keys ud) -> no_dict_at dd k) ->
+  upd (JDict dd) (JDict ud) = Ok (JDict (set_all ud dd)).
+Proof.
+  induction 1 as [|[k v] rest Hv _ IH]; intros dd ND PY NA; [reflexivity|].
+  cbn in ND. inversion ND as [|? ? Hnot ND']; subst. inversion PY as [|? ? Pv PY']; subst.
+  assert (NA' : forall nv k', In k' (keys rest) -> no_dict_at (set_key k nv dd) k').
+  { intros nv k' Hin. unfold no_dict_at. rewrite lookup_set_key.
+    destruct (String.eqb k' k) eqn:E; [apply String.eqb_eq in E; subst; contradiction|].
+    apply NA. now right. }
+  unfold set_all. cbn [fold_left fst snd]. fold (set_all rest (set_key k (kept v) dd)).
+  destruct (is_dict v) eqn:D.
+  - destruct v; try discriminate. rewrite upd_cons_dict.
+    rewrite upd_base_no_dict by (apply NA; now left).
+    rewrite (Hv Pv d eq_refl). apply IH; auto.
+  - rewrite upd_cons_val by exact D. rewrite <- (kept_leaf v D). apply IH; auto.
+Qed.
+
+Lemma upd_keeps_all : forall v, upd_keeps v.
+Proof.
+  induction v as [v A|d IH] using jv_dict_ind; intros PY d' E.
+  - subst v. discriminate.
+  - inversion E; subst d'. apply py_keys_dict in PY as [ND PY].
+    rewrite (upd_over_leaves d IH [] ND PY) by (intros; exact I).
+    rewrite kept_dict, set_all_fresh; [reflexivity | exact ND | intros k _ []].
+Qed.
+
+Lemma upd_dict_kept ud dd : py_keys (JDict ud) -> (forall k, In k (keys ud) -> no_dict_at dd k) ->
+  upd (JDict dd) (JDict ud) = Ok (JDict (set_all ud dd)).
+Proof.
+  intros PY NA. apply py_keys_dict in PY as [ND PY]. apply upd_over_leaves; auto.
+  apply Forall_forall. intros kv _. apply upd_keeps_all.
 Qed.
 
 (* a value of the section, by side and key *)
@@ -467,42 +584,255 @@ Definition field (cfg : jv) (side key : string) : option jv :=
   | None => None
   end.
 
-Definition no_dict_value (d : dict) : Prop := forall k v, In (k, v) d -> is_dict v = false.
-
 (* the user section {"input": {"left": L, "right": R}} (either order of the two sides) is completed
-   into a section that holds, for every key, the user's value ("NaN"/"inf"/"-inf" converted) and
-   otherwise the documented default *)
+   into a section that holds, for every key, the user's value ("NaN"/"inf"/"-inf" converted),
+   WHATEVER that value is (dictionaries included), and otherwise the documented default *)
 Lemma input_completion_lr L R (swap : bool) :
-  NoDup (keys L) -> NoDup (keys R) -> no_dict_value L -> no_dict_value R ->
+  py_keys (JDict L) -> py_keys (JDict R) ->
   let sides := if swap then [("right", JDict R); ("left", JDict L)] else [("left", JDict L); ("right", JDict R)] in
   let user := JDict [("input", JDict sides)] in
   exists cfg, upd (JDict default_short_configuration_input) user = Ok cfg /\
     forall side key, side = "left" \/ side = "right" ->
       field cfg side key = match field user side key with
-                           | Some v => Some (conv_special v)
+                           | Some v => Some (kept v)
                            | None => documented_default side key
                            end.
 Proof.
-  intros NL NR DL DR sides user. subst user sides.
+  intros PL PR sides user. subst user sides.
+  pose proof (proj1 (proj1 (py_keys_dict L) PL)) as NL. pose proof (proj1 (proj1 (py_keys_dict R) PR)) as NR.
   destruct swap.
   - eexists. split.
-    + rewrite upd_cons_dict. cbn [lookup default_short_configuration_input String.eqb Ascii.eqb Bool.eqb].
-      rewrite upd_cons_dict. cbn [lookup String.eqb Ascii.eqb Bool.eqb].
-      rewrite (upd_flat R _ DR). rewrite upd_cons_dict. cbn [lookup set_key String.eqb Ascii.eqb Bool.eqb].
-      rewrite (upd_flat L _ DL). rewrite upd_nil. rewrite upd_nil. reflexivity.
+    + rewrite upd_cons_dict. cbn [upd_base lookup default_short_configuration_input String.eqb Ascii.eqb Bool.eqb].
+      rewrite upd_cons_dict. cbn [upd_base lookup String.eqb Ascii.eqb Bool.eqb].
+      rewrite (upd_dict_kept R _ PR) by (intros k _; apply no_dict_at_leaves; reflexivity).
+      rewrite upd_cons_dict. cbn [upd_base lookup set_key String.eqb Ascii.eqb Bool.eqb].
+      rewrite (upd_dict_kept L _ PL) by (intros k _; apply no_dict_at_leaves; reflexivity).
+      rewrite upd_nil. rewrite upd_nil. reflexivity.
     + intros side key [->| ->]; unfold field; cbn [jget lookup set_key String.eqb Ascii.eqb Bool.eqb];
         rewrite lookup_set_all by assumption; (destruct (lookup key L) || destruct (lookup key R)); try reflexivity;
         unfold documented_default; cbn [lookup];
         repeat (match goal with |- context [String.eqb key ?s] => destruct (String.eqb key s) eqn:? end; cbn; try reflexivity).
   - eexists. split.
-    + rewrite upd_cons_dict. cbn [lookup default_short_configuration_input String.eqb Ascii.eqb Bool.eqb].
-      rewrite upd_cons_dict. cbn [lookup String.eqb Ascii.eqb Bool.eqb].
-      rewrite (upd_flat L _ DL). rewrite upd_cons_dict. cbn [lookup set_key String.eqb Ascii.eqb Bool.eqb].
-      rewrite (upd_flat R _ DR). rewrite upd_nil. rewrite upd_nil. reflexivity.
+    + rewrite upd_cons_dict. cbn [upd_base lookup default_short_configuration_input String.eqb Ascii.eqb Bool.eqb].
+      rewrite upd_cons_dict. cbn [upd_base lookup String.eqb Ascii.eqb Bool.eqb].
+      rewrite (upd_dict_kept L _ PL) by (intros k _; apply no_dict_at_leaves; reflexivity).
+      rewrite upd_cons_dict. cbn [upd_base lookup set_key String.eqb Ascii.eqb Bool.eqb].
+      rewrite (upd_dict_kept R _ PR) by (intros k _; apply no_dict_at_leaves; reflexivity).
+      rewrite upd_nil. rewrite upd_nil. reflexivity.
     + intros side key [->| ->]; unfold field; cbn [jget lookup set_key String.eqb Ascii.eqb Bool.eqb];
         rewrite lookup_set_all by assumption; (destruct (lookup key L) || destruct (lookup key R)); try reflexivity;
         unfold documented_default; cbn [lookup];
         repeat (match goal with |- context [String.eqb key ?s] => destruct (String.eqb key s) eqn:? end; cbn; try reflexivity).
+Qed.
+
+(* ---------------------------------------------------------------- update_conf: every user value is kept, any outline *)
+
+Lemma lookup_in k (d : dict) v : lookup k d = Some v -> In (k, v) d.
+Proof.
+  induction d as [|[k0 v0] r IH]; cbn; [discriminate|].
+  destruct (String.eqb k k0) eqn:E.
+  - apply String.eqb_eq in E. subst. intro H. inversion H. now left.
+  - intro H. right. now apply IH.
+Qed.
+
+Lemma py_keys_lookup d k v : py_keys (JDict d) -> lookup k d = Some v -> py_keys v.
+Proof.
+  intros P L. apply py_keys_dict in P as [_ P]. rewrite Forall_forall in P.
+  exact (P (k, v) (lookup_in _ _ _ L)).
+Qed.
+
+Lemma upd_base_set_key_other dd k k0 nv : String.eqb k k0 = false -> upd_base (set_key k0 nv dd) k = upd_base dd k.
+Proof. intro E. unfold upd_base. now rewrite lookup_set_key, E. Qed.
+
+(* one level of update_conf, for ANY default dictionary and ANY user dictionary with each key once:
+   the keys the user does not give keep their value; a key the user gives holds the user's value
+   converted, or -- for a dictionary -- the merge of that dictionary into what was there *)
+Lemma upd_level ud : forall dd cfg, NoDup (keys ud) -> upd (JDict dd) (JDict ud) = Ok cfg ->
+  exists cd, cfg = JDict cd /\
+    (forall k, ~ In k (keys ud) -> lookup k cd = lookup k dd) /\
+    (forall k v, lookup k ud = Some v ->
+       if is_dict v then exists nv, upd (upd_base dd k) v = Ok nv /\ lookup k cd = Some nv
+       else lookup k cd = Some (conv_special v)).
+Proof.
+  induction ud as [|[k0 v0] rest IH]; intros dd cfg ND U.
+  - rewrite upd_nil in U. inversion U; subst. exists dd. split; [reflexivity|]. split; [reflexivity|]. discriminate.
+  - cbn in ND. inversion ND as [|? ? Hnot ND']; subst.
+    assert (STEP : exists nv0, upd (JDict (set_key k0 nv0 dd)) (JDict rest) = Ok cfg /\
+                     (if is_dict v0 then upd (upd_base dd k0) v0 = Ok nv0 else nv0 = conv_special v0)).
+    { destruct (is_dict v0) eqn:D.
+      - destruct v0; try discriminate. rewrite upd_cons_dict in U.
+        destruct (upd (upd_base dd k0) (JDict d)) as [nv|e]; [|discriminate]. exists nv. auto.
+      - rewrite upd_cons_val in U by exact D. eauto. }
+    destruct STEP as (nv0 & U' & S0).
+    destruct (IH _ _ ND' U') as (cd & -> & Keep & Given). exists cd. split; [reflexivity|]. split.
+    + intros k Hk. cbn in Hk. rewrite Keep by tauto. rewrite lookup_set_key.
+      destruct (String.eqb k k0) eqn:E; [apply String.eqb_eq in E; subst; tauto | reflexivity].
+    + intros k v L. cbn [lookup] in L. destruct (String.eqb k k0) eqn:E.
+      * apply String.eqb_eq in E. subst k0. inversion L; subst v0.
+        rewrite (Keep k Hnot), lookup_set_key, String.eqb_refl.
+        destruct (is_dict v); [eauto | now rewrite S0].
+      * specialize (Given k v L). now rewrite upd_base_set_key_other in Given by exact E.
+Qed.
+
+(* EVERY USER VALUE IS KEPT, whatever the outline of the user's configuration (other keys at any
+   level, sides in any order, a side missing, ...): if update_conf returns at all, the value the
+   user gave for a key of the left / right section is in the result *)
+Lemma user_values_kept user cfg side key v :
+  py_keys user -> upd (JDict default_short_configuration_input) user = Ok cfg ->
+  side = "left" \/ side = "right" ->
+  field user side key = Some v -> field cfg side key = Some (kept v).
+Proof.
+  intros PY U S F. unfold field in F.
+  destruct user as [| | | | | | | |top]; try discriminate. cbn [jget] in F.
+  destruct (lookup "input" top) as [[| | | | | | | |inp]|] eqn:L1; try discriminate. cbn [jget] in F.
+  destruct (lookup side inp) as [[| | | | | | | |sd]|] eqn:L2; try discriminate. cbn [jget] in F.
+  pose proof (py_keys_lookup _ _ _ PY L1) as P1. pose proof (py_keys_lookup _ _ _ P1 L2) as P2.
+  pose proof (py_keys_lookup _ _ _ P2 F) as P3.
+  destruct (upd_level top _ _ (proj1 (proj1 (py_keys_dict top) PY)) U) as (c0 & -> & _ & G0).
+  specialize (G0 _ _ L1). cbn [is_dict] in G0. destruct G0 as (n1 & U1 & C1).
+  cbn [upd_base lookup default_short_configuration_input String.eqb Ascii.eqb Bool.eqb] in U1.
+  destruct (upd_level inp _ _ (proj1 (proj1 (py_keys_dict inp) P1)) U1) as (c1 & -> & _ & G1).
+  specialize (G1 _ _ L2). cbn [is_dict] in G1. destruct G1 as (n2 & U2 & C2).
+  assert (E : exists ds, upd_base [("left", JDict [("nodata", JInt (-9999)); ("mask", JNull); ("classif", JNull); ("segm", JNull)]);
+                                   ("right", JDict [("nodata", JInt (-9999)); ("mask", JNull); ("classif", JNull); ("segm", JNull); ("disp", JNull)])]
+                                  side = JDict ds /\ forallb (fun kv => negb (is_dict (snd kv))) ds = true).
+  { destruct S as [-> | ->]; eexists; split; reflexivity. }
+  destruct E as (ds & Eb & Lv). rewrite Eb in U2.
+  destruct (upd_level sd _ _ (proj1 (proj1 (py_keys_dict sd) P2)) U2) as (c2 & -> & _ & G2).
+  specialize (G2 _ _ F).
+  unfold field. cbn [jget]. rewrite C1. cbn [jget]. rewrite C2. cbn [jget].
+  destruct (is_dict v) eqn:D.
+  - destruct G2 as (n3 & U3 & C3). rewrite C3. f_equal.
+    rewrite (upd_base_no_dict ds key (no_dict_at_leaves ds Lv key)) in U3.
+    destruct v; try discriminate. rewrite (upd_keeps_all (JDict d) P3 d eq_refl) in U3. now inversion U3.
+  - rewrite G2. now rewrite kept_leaf.
+Qed.
+
+(* ---------------------------------------------------------------- a documented form holds no dictionary value *)
+
+Lemma lookup_in_keys k (d : dict) v : lookup k d = Some v -> In k (keys d).
+Proof.
+  induction d as [|[k0 v0] r IH]; cbn; [discriminate|].
+  destruct (String.eqb k k0) eqn:E; [apply String.eqb_eq in E; subst; now left | intro H; right; now apply IH].
+Qed.
+
+Lemma is_dict_kept v : is_dict (kept v) = is_dict v.
+Proof.
+  destruct v; try reflexivity. cbn [kept conv_special].
+  destruct (String.eqb s "NaN"); [reflexivity|]. destruct (String.eqb s "inf"); [reflexivity|].
+  destruct (String.eqb s "-inf"); reflexivity.
+Qed.
+
+Lemma documented_no_dict fs cfg side key v :
+  documented_b fs cfg = true -> side = "left" \/ side = "right" ->
+  field cfg side key = Some v -> is_dict v = false.
+Proof.
+  intros D S F. unfold field in F.
+  destruct cfg as [| | | | | | | |top]; try discriminate. cbn [documented_b jget] in *.
+  apply andb_prop in D as [_ D].
+  destruct (lookup "input" top) as [[| | | | | | | |inp]|]; try discriminate. cbn [jget] in F.
+  apply andb_prop in D as [_ D].
+  destruct (lookup "left" inp) as [[| | | | | | | |l]|] eqn:El; try discriminate.
+  destruct (lookup "right" inp) as [[| | | | | | | |r]|] eqn:Er; try discriminate.
+  apply andb_prop in D as [K D]. apply andb_prop in K as [Kl Kr].
+  destruct (lookup "img" l) as [a1|] eqn:L1; [|discriminate]. destruct (lookup "nodata" l) as [a2|] eqn:L2; [|discriminate].
+  destruct (lookup "mask" l) as [a3|] eqn:L3; [|discriminate]. destruct (lookup "classif" l) as [a4|] eqn:L4; [|discriminate].
+  destruct (lookup "segm" l) as [a5|] eqn:L5; [|discriminate]. destruct (lookup "disp" l) as [a6|] eqn:L6; [|discriminate].
+  destruct (lookup "img" r) as [b1|] eqn:R1; [|discriminate]. destruct (lookup "nodata" r) as [b2|] eqn:R2; [|discriminate].
+  destruct (lookup "mask" r) as [b3|] eqn:R3; [|discriminate]. destruct (lookup "classif" r) as [b4|] eqn:R4; [|discriminate].
+  destruct (lookup "segm" r) as [b5|] eqn:R5; [|discriminate]. destruct (lookup "disp" r) as [b6|] eqn:R6; [|discriminate].
+  unfold doc_values in D.
+  destruct a1 as [| | | |pl| | | |]; try discriminate. destruct b1 as [| | | |pr| | | |]; try discriminate.
+  destruct (fs pl) as [fl|]; [|discriminate]. destruct (fs pr) as [fr|]; [|discriminate].
+  repeat (match goal with H : _ && _ = true |- _ => apply andb_prop in H as [? ?] end).
+  assert (Dl : is_dict a6 = false).
+  { destruct a6; try reflexivity. cbn in *. discriminate. }
+  assert (Dr : is_dict b6 = false).
+  { destruct b6; try reflexivity. cbn in *.
+    match goal with H : _ || _ = true |- _ => rewrite !andb_false_r in H; discriminate end. }
+  assert (M : forall d, keys_exactly d side_keys = true -> lookup key d = Some v ->
+              key = "img" \/ key = "nodata" \/ key = "mask" \/ key = "classif" \/ key = "segm" \/ key = "disp").
+  { intros d Kd Ld. unfold keys_exactly in Kd. apply andb_prop in Kd as [_ Kd].
+    rewrite forallb_forall in Kd. specialize (Kd key (lookup_in_keys _ _ _ Ld)).
+    unfold side_keys in Kd. cbn [mem_str] in Kd.
+    repeat (match goal with H : String.eqb key ?s || _ = true |- _ =>
+              destruct (String.eqb key s) eqn:E; [apply String.eqb_eq in E; tauto | clear E; cbn [orb] in H] end).
+    discriminate. }
+  destruct S as [-> | ->].
+  - rewrite El in F. cbn [jget] in F.
+    destruct (M l Kl F) as [-> | [-> | [-> | [-> | [-> | ->]]]]];
+      [rewrite L1 in F | rewrite L2 in F | rewrite L3 in F | rewrite L4 in F | rewrite L5 in F | rewrite L6 in F];
+      inversion F; subst; try exact Dl; try reflexivity; destruct v; try reflexivity; cbn in *; discriminate.
+  - rewrite Er in F. cbn [jget] in F.
+    destruct (M r Kr F) as [-> | [-> | [-> | [-> | [-> | ->]]]]];
+      [rewrite R1 in F | rewrite R2 in F | rewrite R3 in F | rewrite R4 in F | rewrite R5 in F | rewrite R6 in F];
+      inversion F; subst; try exact Dr; try reflexivity; destruct v; try reflexivity; cbn in *; discriminate.
+Qed.
+
+(* ---------------------------------------------------------------- no accepted section holds a dictionary value *)
+
+(* when the part of check_input_section after update_conf returns, the json-checker validation
+   against one of the four schemas has accepted the configuration *)
+Lemma completed_accepts fs cfg : is_ok (pandora_check_completed fs cfg) = true ->
+  exists b1 b2, accepts (orc fs) (chosen_schema gen_schemas b1 b2) cfg = true.
+Proof.
+  unfold pandora_check_completed, check_completed. intro H.
+  destruct (subscript cfg "input") as [inp|]; [|discriminate]. cbn [bind] in H.
+  destruct (subscript inp "left") as [l|]; [|discriminate]. cbn [bind] in H.
+  destruct (subscript l "disp") as [ld|]; [|discriminate]. cbn [bind] in H.
+  destruct (if is_list ld then Ok false
+            else bind (subscript inp "right") (fun r => bind (subscript r "disp") (fun rd => Ok (is_str rd)))) as [rstr|];
+    [|discriminate]. cbn [bind] in H.
+  exists (is_list ld), rstr.
+  destruct (accepts (orc fs) (chosen_schema gen_schemas (is_list ld) rstr) cfg); [reflexivity | discriminate].
+Qed.
+
+Lemma keys_sub_lookup d key v : keys_sub d = true -> lookup key d = Some v ->
+  key = "img" \/ key = "nodata" \/ key = "mask" \/ key = "classif" \/ key = "segm" \/ key = "disp".
+Proof.
+  intros K L. unfold keys_sub in K. rewrite forallb_forall in K. specialize (K key (lookup_in_keys _ _ _ L)).
+  unfold side_keys in K. cbn [mem_str] in K.
+  repeat (match goal with H : String.eqb key ?s || _ = true |- _ =>
+            destruct (String.eqb key s) eqn:E; [apply String.eqb_eq in E; tauto | clear E; cbn [orb] in H] end).
+  discriminate.
+Qed.
+
+(* one side accepted by the schema: none of its values is a dictionary *)
+Lemma accepted_side_no_dict fs sd d key v :
+  In sd [sch_interval; sch_grid; sch_none] ->
+  accepts (orc fs) (SDict (ref_side sd)) (JDict d) = true -> lookup key d = Some v -> is_dict v = false.
+Proof.
+  intros Isd A L. rewrite accepts_side in A.
+  destruct (side_vals d) as [[[[[[a1 a2] a3] a4] a5] a6]|] eqn:Sv; [|discriminate].
+  destruct (side_vals_all d _ _ _ _ _ _ Sv) as (L1 & L2 & L3 & L4 & L5 & L6).
+  apply andb_prop in A as [K A]. repeat (match goal with H : _ && _ = true |- _ => apply andb_prop in H as [? ?] end).
+  destruct (keys_sub_lookup d key v K L) as [-> | [-> | [-> | [-> | [-> | ->]]]]];
+    [rewrite L1 in L | rewrite L2 in L | rewrite L3 in L | rewrite L4 in L | rewrite L5 in L | rewrite L6 in L];
+    inversion L; subst; destruct v; try reflexivity; try (cbn in *; discriminate).
+  cbn [In] in Isd. destruct Isd as [<- | [<- | [<- | []]]]; cbn in *; discriminate.
+Qed.
+
+Lemma completed_no_dict fs cfg side key v :
+  is_ok (pandora_check_completed fs cfg) = true -> side = "left" \/ side = "right" ->
+  field cfg side key = Some v -> is_dict v = false.
+Proof.
+  intros H S F. destruct (completed_accepts fs cfg H) as (b1 & b2 & A).
+  rewrite gen_schema_is_ref in A. unfold field in F.
+  destruct cfg as [| | | | | | | |top]; try discriminate. cbn [jget] in F.
+  destruct (lookup "input" top) as [[| | | | | | | |inp]|] eqn:L1; try discriminate. cbn [jget] in F.
+  destruct (lookup side inp) as [[| | | | | | | |sd]|] eqn:L2; try discriminate. cbn [jget] in F.
+  assert (E : exists sl sr, In sl [sch_interval; sch_grid; sch_none] /\ In sr [sch_interval; sch_grid; sch_none] /\
+              ref_schema b1 b2 = SDict [("input", false, SDict [("left", false, SDict (ref_side sl));
+                                                               ("right", false, SDict (ref_side sr))])]).
+  { destruct b1; [|destruct b2]; do 2 eexists; (split; [|split; [|reflexivity]]); cbn [In]; tauto. }
+  destruct E as (sl & sr & Il & Ir & E). rewrite E in A. clear E.
+  rewrite accepts_sdict in A. cbn [forallb skey_name skey_opt skey_schema fst snd map] in A. rewrite L1 in A.
+  apply andb_prop in A as [A _]. apply andb_prop in A as [A _].
+  rewrite accepts_sdict in A. cbn [forallb skey_name skey_opt skey_schema fst snd map] in A.
+  apply andb_prop in A as [A _]. apply andb_prop in A as [Al Ar]. apply andb_prop in Ar as [Ar _].
+  destruct S as [-> | ->]; rewrite L2 in *.
+  - exact (accepted_side_no_dict fs sl sd key v Il Al F).
+  - exact (accepted_side_no_dict fs sr sd key v Ir Ar F).
 Qed.
 
 (* ---------------------------------------------------------------- the whole function *)
